@@ -669,6 +669,12 @@ def _factor_array(prog, f, target_text, vec_name):
     F = Array.zeros(1, name=target_text)
     vec = Array.opaque(vec_name, 2)
     env = {"self": Obj("self", attrs={"F4n": F}), "F4e": F, "e": vec, "d": vec}
+    if target_text.isidentifier():
+        env[target_text] = F
+    for a_ in walk_no_nested(f.node):
+        # locals standing for the array of polarisations (whatever they are called)
+        if isinstance(a_, ast.Assign) and len(a_.targets) == 1 and isinstance(a_.targets[0], ast.Name) and norm(a_.value) == "self.e":
+            env[a_.targets[0].id] = vec
     it = Interp(prog, lenient=False)
     it.stack.append(f)
     it.exec_body(stores, env)
@@ -701,12 +707,19 @@ def rule_B(run, prog):
     sp = lab.methods["set_pulse_polarizations"]
     # the field factor is computed where the polarisations are set, or on every read by a property F4eM4
     from ..loader import FuncInfo
-    fe = sp
+    # (found by what it does, not by the name of the local: the array that is contracted with self.M4)
+    fe, fname = sp, "F4e"
     for st_ in lab.node.body:
-        if isinstance(st_, ast.FunctionDef) and any(isinstance(n_, ast.Assign) and isinstance(n_.targets[0], ast.Subscript)
-                                                    and norm(n_.targets[0].value) == "F4e" for n_ in walk_no_nested(st_)):
-            fe = FuncInfo(st_.name, lab.module, lab, st_)
-    Fe, se = _factor_array(prog, fe, "F4e", "v")
+        if not isinstance(st_, ast.FunctionDef):
+            continue
+        for c_ in ast.walk(st_):
+            if isinstance(c_, ast.Call) and (call_name(c_) or "").split(".")[-1] == "dot" and len(c_.args) == 2 \
+                    and isinstance(c_.args[0], ast.Name) and norm(c_.args[1]) == "self.M4":
+                nm_ = c_.args[0].id
+                if sum(1 for n_ in walk_no_nested(st_) if isinstance(n_, ast.Assign) and isinstance(n_.targets[0], ast.Subscript)
+                       and norm(n_.targets[0].value) == nm_) == 3:
+                    fe, fname = FuncInfo(st_.name, lab.module, lab, st_), nm_
+    Fe, se = _factor_array(prog, fe, fname, "v")
     bl = prog.cls(LP).methods["build"]
     Fd, sd = _factor_array(prog, bl, "self.F4n", "v")
     matchings = []
@@ -730,7 +743,7 @@ def rule_B(run, prog):
     # F4eM4 = F4e . M4 ; prefactor = sign * (F4eM4 . F4n) * rho0 * evolfac
     st = [norm(s) for s in ast.walk(sp.node) if isinstance(s, ast.stmt)]
     stf = [norm(s) for s in ast.walk(fe.node) if isinstance(s, ast.stmt)]
-    contracted = "self.F4eM4 = numpy.dot(F4e, self.M4)" in stf or ("return numpy.dot(F4e, self.M4)" in stf)
+    contracted = ("self.F4eM4 = numpy.dot(%s, self.M4)" % fname) in stf or (("return numpy.dot(%s, self.M4)" % fname) in stf)
     run.obligation(rid, "LabSetup." + fe.name, contracted, key="F4eM4",
                    message="the field factor must be contracted with M4", loc=fe.loc())
     oa = prog.cls(LP).methods["orientational_averaging"]
